@@ -11,7 +11,11 @@ TYPES = [(r'LEorLT$|^std::variant<nano::LE_t, nano::LT_t>$', 'struct nv_lelt'),
          (r'^(nano::)?parameter_t$', 'struct nv_parameter'),
          (r'^(std::)?tuple<int, int>$', 'struct nv_tup_i32'), (r'^(std::)?tuple<long, long>$', 'struct nv_tup_i64'),
          (r'^(std::)?tuple<double, double>$', 'struct nv_tup_f64'),
-         (r'^(nano::string_t|std::string|std::basic_string<char>)$', 'struct nv_str')]
+         (r'^(nano::string_t|std::string|std::basic_string<char>)$', 'struct nv_str'),
+         (r'__normal_iterator<std::basic_string<char> \*, std::vector', 'struct nv_str*'),
+         (r'^(nano::strings_t|std::vector<std::basic_string<char>.*)$', 'struct nv_strs'),
+         (r'^(std::)?tuple<std::basic_string<char>, std::basic_string<char>>$', 'struct nv_tup_str'),
+         (r'std::tuple_element<[01], const std::tuple<std::basic_string<char>, std::basic_string<char>>>::type', 'struct nv_str')]
 
 # ::update instantiations of src/parameter.cpp: C name <- template arguments
 RANGE = [('update_ir_i64', ['long', 'long']), ('update_ir_ll', ['long', 'long long']), ('update_ir_f64', ['long', 'double']),
@@ -34,13 +38,20 @@ def fnty(ts, *tv):
 CALLS = [(r'^check\|.*long, long\)', 'check_i64'), (r'^check\|.*double, double\)', 'check_f64'),
          (r'^isfinite\|bool \(const long\)', 'isfinite_i64'), (r'^isfinite\|bool \(const double\)', 'isfinite_f64'),
          (r'^isfinite\|bool \(double\)', 'nv_std_isfinite'),
-         (r'^get\|__tuple_element_t<0UL', '{0}._0'), (r'^get\|__tuple_element_t<1UL', '{0}._1')]
+         (r'^get\|__tuple_element_t<0UL', '{0}._0'), (r'^get\|__tuple_element_t<1UL', '{0}._1'),
+         (r'^move\|', '{0}'),     # std::move on the value models (strings are ids, records are plain structs): a copy
+         (r'^find\|', 'nv_find_str({0}, {1}, {&2})'), (r'^operator==\|.*__normal_iterator<std::basic_string<char> \*', '({0} == {1})'),
+         (r'^operator=\|.*basic_string<char> &\(', '({0} = {1})'),
+         (r'^update\|parameter_t::enum_t &\(', 'update_enum!^'),
+         (r'^stoll\|', 'nv_stoll({&0})!^'), (r'^stod\|', 'nv_stod({&0})!^'), (r'^split_pair\|', 'nv_split_pair({&0})')]
+STRS = r'std::vector<std::(__cxx11::)?basic_string<char>'
+MEMBERS = [(r'^begin\|' + STRS, '{*self}.p'), (r'^end\|' + STRS, '({*self}.p + {*self}.n)')]
 CALLS += [(fnty(ta[0], *ta[1:]), cname + '!^') for cname, ta in RANGE + PAIR]
 CALLS += [(r'^update\|void \(const nano::string_t &, parameter_t::storage_t &, %s\)' % re_, cname + '!') for cname, re_ in [
     ('update_st_i64', 'long'), ('update_st_f64', 'double'), ('update_st_t32', r'std::tuple<int, int>'),
     ('update_st_t64', r'std::tuple<long, long>'), ('update_st_tf', r'std::tuple<double, double>')]]
 HOOKS = [hooks.variant_expr_hook()]
-COMMON = dict(types=TYPES, calls=CALLS, hooks=HOOKS, stmt_hooks=[hooks.variant_visit_hook()], uf_float=False)
+COMMON = dict(types=TYPES, calls=CALLS, members=MEMBERS, hooks=HOOKS, stmt_hooks=[hooks.variant_visit_hook()], uf_float=False)
 
 
 def targs(*want):
@@ -63,14 +74,25 @@ def upd_storage(cname, tv, tup):
     return Fn(cname, TU, 'update', select=sel, **COMMON)
 
 
+def upd_enum():
+    return Fn('update_enum', TU, 'update', select=lambda d: 'enum_t' in astload.param_types(d)[1], **COMMON)
+
+
+def ctor(cname, pt):
+    want = ['nano::string_t', 'nano::parameter_t::' + pt if pt else 'nano::string_t']
+    return Fn(cname, TU, 'parameter_t', flt='nano::parameter_t::parameter_t', select=lambda d: astload.param_types(d) == want,
+              self_struct='struct nv_parameter', **COMMON)
+
+
 def method(cname, name, ptypes=None):
     sel = (lambda d: astload.param_types(d) == ptypes) if ptypes else None
     return Fn(cname, TU, name, flt='nano::parameter_t::' + name, select=sel, self_struct='struct nv_parameter', **COMMON)
 
 
-def T(name, fns, **kw):
-    # cadical decides the float <-> integer conversion queries of these targets about 4x faster than minisat
-    return Target(name, fns, H, cbmc_flags=['--sat-solver', 'cadical'], **kw)
+def T(name, fns, solver='cadical', **kw):
+    # cadical decides the float <-> integer conversion queries of the update targets about 4x faster than minisat;
+    # minisat (cbmc's default) is much faster on the string-assignment target (uninterpreted parsing functions)
+    return Target(name, fns, H, cbmc_flags=(['--sat-solver', solver] if solver else []), **kw)
 
 
 def build(tier):
@@ -96,6 +118,18 @@ def build(tier):
                                 ('parameter_assign_t64', 'operator=', ['std::tuple<int64_t, int64_t>'], 'update_st_t64'),
                                 ('parameter_assign_tf', 'operator=', ['std::tuple<scalar_t, scalar_t>'], 'update_st_tf')]:
         targets.append(T(cname, [method(cname, name, pt)] + st_fns(st), replace=callee[st]))
+    # T3: enum update and the six constructors (everything inlined down to ::check)
+    targets.append(T('update_enum', [upd_enum()]))
+    for cname, pt, deps in [('parameter_ctor_ir', 'irange_t', ['update_ir_i64']), ('parameter_ctor_fr', 'frange_t', ['update_fr_f64']),
+                            ('parameter_ctor_ip', 'iprange_t', ['update_ip_i64']), ('parameter_ctor_fp', 'fprange_t', ['update_fp_f64']),
+                            ('parameter_ctor_enum', 'enum_t', []), ('parameter_ctor_str', None, [])]:
+        fns = [ctor(cname, pt)] + [upd(c, table[c]) for c in deps] + ([upd_enum()] if pt == 'enum_t' else []) + helpers()
+        targets.append(T(cname, fns))
+    # T4: parameter_t::operator=(string): seven visitors, parsing by assumed STL functions, everything else inlined
+    for cname in ['parameter_assign_str']:
+        targets.append(T(cname, [method(cname, 'operator=', ['nano::string_t']), upd_enum()] +
+                         [upd(c, table[c]) for c in ('update_ir_ll', 'update_fr_f64', 'update_ip_ll', 'update_fp_f64')] + helpers(),
+                         solver=None))
     return {
         'targets': targets, 'vcs': [],
         'decided': [],
